@@ -29,8 +29,17 @@ impl Val {
       Val::Tok(i, _) => *i,
       Val::Bool(b) => *b as i64,
       Val::Unit => 0,
-      Val::List(v) => v.iter().map(|x| x.int()).sum(),
-      Val::Mat(k, v) => *k as i64 * 1000 + v.int(),
+      Val::List(v) => v.iter().fold(0i64, |a, x| a.wrapping_add(x.int())),
+      Val::Mat(k, v) => (*k as i64 * 1000).wrapping_add(v.int()),
+    }
+  }
+  /// the same value without drop-counting tokens (what the harness may keep)
+  pub fn strip(&self) -> Val {
+    match self {
+      Val::Tok(i, _) => Val::Int(*i),
+      Val::List(v) => Val::List(v.iter().map(|x| x.strip()).collect()),
+      Val::Mat(k, v) => Val::Mat(*k, Box::new(v.strip())),
+      x => x.clone(),
     }
   }
   pub fn show(&self) -> String {
